@@ -30,7 +30,7 @@ func (c09) ID() string { return "C09" }
 
 func (c09) Cases(tier string) int {
 	if tier == "thorough" {
-		return 50000
+		return 30000
 	}
 	return 1600
 }
